@@ -613,3 +613,145 @@ def store_index(repo: Repo):
                     idx.setdefault(st.path.split(".")[-1].replace("[]", ""), []).append((f, st))
         repo._hsa_store_index = idx
     return idx
+
+
+# ---- inlining of same-module functions as well as same-class methods (appended for C15) ----
+
+def inline_helpers(repo: Repo, fi: FuncInfo, depth=2, _stack=(), keep=frozenset()):
+    """Like inline_self_calls, but statements `f(..)`, `x = f(..)`, `return f(..)` calling a plain top-level
+    function of the same module are expanded too, and the receiver may be `cls` of a classmethod.  Only
+    helpers without `return` or with a single trailing one are inlined.  Result has parents set."""
+    from ..core import set_parents
+    keep = frozenset(keep)
+    fn = clone_ast(fi.node, fi.module.rel)
+    selfname = fn.args.args[0].arg if fi.cls is not None and fn.args.args else None
+    counter = [0]
+
+    def helper_of(call):
+        f = call.func
+        if isinstance(f, ast.Attribute) and isinstance(f.value, ast.Name) and selfname and f.value.id == selfname:
+            h = repo.lookup_method(fi.cls, f.attr)
+            if h is None or any((ap(d) or "") != "classmethod" for d in h.node.decorator_list):
+                return None, 0
+            return (None, 0) if f.attr in keep else (h, 1)
+        if isinstance(f, ast.Name) and f.id not in keep:
+            cands = [g for g in repo.funcs.get(f.id, []) if g.module is fi.module and g.cls is None
+                     and g.parent_fn is None and not g.node.decorator_list]
+            if len(cands) == 1:
+                return cands[0], 0
+        return None, 0
+
+    def try_inline(st):
+        val, kind, target = None, None, None
+        if isinstance(st, ast.Expr):
+            val, kind = st.value, "expr"
+        elif isinstance(st, (ast.Assign, ast.AnnAssign)) and st.value is not None:
+            tg = st.targets[0] if isinstance(st, ast.Assign) and len(st.targets) == 1 else \
+                st.target if isinstance(st, ast.AnnAssign) else None
+            if isinstance(tg, ast.Name):
+                val, kind, target = st.value, "assign", tg
+        elif isinstance(st, ast.Return) and st.value is not None:
+            val, kind = st.value, "return"
+        awaited = isinstance(val, ast.Await)
+        if awaited:
+            val = val.value
+        if not isinstance(val, ast.Call):
+            return None
+        h, skip = helper_of(val)
+        if h is None or h == fi or h.full in _stack or isinstance(h.node, ast.AsyncFunctionDef) != awaited:
+            return None
+        a = h.node.args
+        if a.vararg or a.kwarg or any(isinstance(x, ast.Starred) for x in val.args) or any(k.arg is None for k in val.keywords):
+            return None
+        for x in walk(h.node, into_defs=True):
+            if isinstance(x, (ast.Global, ast.Nonlocal, ast.Import, ast.ImportFrom, ast.Yield, ast.YieldFrom)):
+                return None
+        rets = [x for x in walk(h.node) if isinstance(x, ast.Return)]
+        if len(rets) > 1 or (rets and rets[0] is not h.node.body[-1]):
+            return None
+        hfn = inline_helpers(repo, h, depth - 1, _stack + (fi.full,), keep) if depth > 1 else clone_ast(h.node, h.module.rel)
+        body = list(hfn.body)
+        if body and isinstance(body[0], ast.Expr) and isinstance(body[0].value, ast.Constant) and isinstance(body[0].value.value, str):
+            body = body[1:]
+        tail = None
+        if body and isinstance(body[-1], ast.Return):
+            tail, body = body[-1].value, body[:-1]
+        allp = [p.arg for p in (hfn.args.posonlyargs + hfn.args.args)]
+        hself, params = (allp[0] if skip and allp else None), allp[skip:]
+        pos_defaults = dict(zip(reversed(allp), reversed(hfn.args.defaults)))
+        kwonly = [p.arg for p in hfn.args.kwonlyargs]
+        kw_defaults = {p: d for p, d in zip(kwonly, hfn.args.kw_defaults) if d is not None}
+        if len(val.args) > len(params):
+            return None
+        bound = dict(zip(params, val.args))
+        for k in val.keywords:
+            if k.arg in bound or k.arg not in params + kwonly:
+                return None
+            bound[k.arg] = k.value
+        for p in params + kwonly:
+            if p not in bound:
+                d = pos_defaults.get(p, kw_defaults.get(p))
+                if d is None:
+                    return None
+                bound[p] = d
+        counter[0] += 1
+        pre = f"__inl{len(_stack)}_{counter[0]}_"
+        stored = set()
+        for b in body:
+            for x in ast.walk(b):
+                if isinstance(x, ast.Name) and isinstance(x.ctx, (ast.Store, ast.Del)):
+                    stored.add(x.id)
+                elif isinstance(x, ast.arg):
+                    stored.add(x.arg)
+                elif isinstance(x, ast.ExceptHandler) and x.name:
+                    stored.add(x.name)
+        stored.discard(hself)
+        mapping, rename, prologue = {}, {n: pre + n for n in stored}, []
+        if hself and selfname and hself != selfname:
+            mapping[hself] = ast.Name(id=selfname, ctx=ast.Load())
+        for p, e in bound.items():
+            if _simple_arg(e) and p not in stored:
+                mapping[p] = e
+            else:
+                rename[p] = pre + p
+                prologue.append(ast.copy_location(ast.Assign(targets=[ast.Name(id=pre + p, ctx=ast.Store())],
+                                                             value=clone_ast(e)), st))
+        sub = _InlineSubst(mapping, rename)
+        out = prologue + [sub.visit(b) for b in body]
+        tail_e = sub.visit(tail) if tail is not None else None
+        if kind == "expr":
+            if tail_e is not None and any(isinstance(x, ast.Call) for x in ast.walk(tail_e)):
+                out.append(ast.copy_location(ast.Expr(value=tail_e), st))
+        elif kind == "assign":
+            out.append(ast.copy_location(ast.Assign(targets=[clone_ast(target)],
+                                                    value=tail_e if tail_e is not None else ast.Constant(value=None)), st))
+        else:
+            out.append(ast.copy_location(ast.Return(value=tail_e), st))
+        return out or [ast.copy_location(ast.Pass(), st)]
+
+    def expand(stmts):
+        out = []
+        for st in stmts:
+            rep = try_inline(st) if depth > 0 else None
+            if rep is not None:
+                out.extend(rep)
+                continue
+            if not isinstance(st, FUNC_TYPES + (ast.ClassDef,)):
+                for field in ("body", "orelse", "finalbody"):
+                    b = getattr(st, field, None)
+                    if isinstance(b, list) and b and isinstance(b[0], ast.stmt):
+                        setattr(st, field, expand(b))
+                for h in getattr(st, "handlers", None) or []:
+                    h.body = expand(h.body)
+            out.append(st)
+        return out
+    fn.body = expand(fn.body)
+    if not _stack:
+        ast.fix_missing_locations(fn)
+        set_parents(fn)
+    return fn
+
+
+def inlined_funcinfo(repo: Repo, fi: FuncInfo, depth=2, keep=frozenset()) -> FuncInfo:
+    """FuncInfo whose node is the helper-inlined copy of fi (same qual/module, for keys and locations)."""
+    return FuncInfo(fi.name, fi.qual, fi.module, inline_helpers(repo, fi, depth, keep=keep), fi.cls, fi.parent_fn)
